@@ -136,6 +136,10 @@ class C07(Check):
                 for sigma in (0.1, 0.5, 2.0):
                     yield {'k': 'displ', 'n': n, 'edges': edges, 'sigma': sigma}
                 yield {'k': 'displ', 'n': n, 'edges': edges, 'sigma': 0.5, 'table': 'geom_rev'}
+            if n >= 4:      # star-like atoms with a narrow triple of first neighbours
+                for edges in en.all_trees(n):
+                    if {(0, 1), (0, 2), (0, 3)} <= {tuple(sorted(e)) for e in edges}:
+                        yield {'k': 'displ', 'n': n, 'edges': edges, 'sigma': 0.5, 'narrow': 1, 'atom': 0}
             if n >= 4:      # cyclic graphs give atoms with >=3 neighbours in other orders
                 for edges in en.connected_graphs(n):
                     if len(edges) > n - 1 and n == 4:
@@ -210,6 +214,13 @@ class C07(Check):
         elif case['k'] == 'edit':
             self._edit(case, R, pos, edges, move_mol_atom)
         elif case['k'] == 'displ':
+            if case.get('narrow'):
+                # atom 0 has neighbours 1, 2, 3 whose directions 1->2 and 1->3 make an angle of ~4 degrees: the plane
+                # through the three neighbours is perfectly defined, just narrow
+                pos = pos.copy()
+                pos[1] = pos[0] + np.array([-0.1, -0.1, 0.3])
+                pos[2] = pos[1] + np.array([0.15, 0.0, 0.0])
+                pos[3] = pos[1] + np.array([0.3, 0.02, 0.0])
             info = bonds_table(n, edges, pos, case.get('table', 'geom'))
             atoms = [case['atom']] if 'atom' in case else range(n)
             for atom in atoms:
@@ -257,7 +268,20 @@ class C07(Check):
         for atom in ([case['atom']] if 'atom' in case else range(n)):
             cdesc = dict(case, atom=atom)
             info = bonds_table(n, edges, pos, 'geom')
-            move_mol_atom(pos, info, atom, d.copy())
+            r1 = move_mol_atom(pos, info, atom, d.copy())
+            keep1 = np.array(r1, float).copy()
+            # a second trial move from the SAME input: the first result is the caller's and must stay what it was
+            r2 = move_mol_atom(pos, info, atom, -0.5 * d)
+            if r2 is r1 or not np.array_equal(np.asarray(r1), keep1):
+                R.violation('move/result-returned-earlier-changed-by-a-later-call', cdesc, 'two moves from one input')
+            # the input given as a VIEW of an earlier result must not be modified either
+            view = r2[:] if isinstance(r2, np.ndarray) else np.asarray(r2)
+            before = np.array(view, float).copy()
+            r3 = move_mol_atom(view, info, (atom + 1) % n, d.copy())
+            if not np.array_equal(np.asarray(view), before):
+                R.violation('move/input-modified', cdesc, 'input was a view of an earlier result')
+            elif np.abs(np.asarray(r3)[(atom + 1) % n] - (before[(atom + 1) % n] + d)).max() > 1e-12:
+                R.violation('move/moved-atom-not-displaced-by-displ', cdesc, 'input was a view of an earlier result')
             for k in list(info):
                 info[k] = [(j, ln * 1.25) for j, ln in info[k]]      # same dict object, new lengths
             out = move_mol_atom(pos, info, atom, d.copy())
